@@ -18,13 +18,16 @@ PROPERTY = "C14"
 LEVEL = "exploration"
 VERBOSE = True
 MAXTASKS = 4
-RULE = ("full Cartesian product of the SoC parameter menus (quick: a smaller full product); per SoC every register, CSR "
+RULE = ("thorough: full Cartesian product of the SoC parameter menus; quick: the full product of the bus platforms (standard x "
+        "width x interconnect x CSR data width) each with 3 of the 5 menus in rotation (2 big-, 1 little-ordered); per SoC every register, CSR "
         "memory, bus memory region, field, constant and interrupt number published by get_csr_json/csv/header/svd, "
         "get_mem_header and get_soc_header is checked; evaluations = bus accesses whose effect/result was compared with "
-        "the hardware object of that name (image part: source bytes compared); distinct = distinct (SoC configuration, "
-        "published item) pairs (image part: distinct (form, length, offset, content) cases)")
+        "the hardware object of that name (image part: source bytes compared); every multi-word register / wide CSR-memory "
+        "element is also written with every writable item of another bank interleaved before its last chunk; distinct = "
+        "distinct (SoC configuration, published item or (interrupted item, interloper) pair) cases (image part: distinct "
+        "(form, length, offset, content) cases)")
 ASSUMPTIONS = [
-    "2-state zero-delay FHDL semantics of litex.gen.sim; bulk simulation on the compiled stepper, every 97th clock edge "
+    "2-state zero-delay FHDL semantics of litex.gen.sim; bulk simulation on the compiled stepper, every 193rd clock edge "
     "re-executed on LiteX's Evaluator (all signals compared); every violation re-run from reset on run_simulation",
     "SoCs are SoCCore(cpu_type=None) with integrated SRAM; the bus master is a 32-bit classic Wishbone master that "
     "always drives sel=0xf (the SoC inserts width/standard adapters); csr_alignment is 32 (the only supported value)",
@@ -48,8 +51,13 @@ STD = ["wishbone", "axi-lite", "axi"]
 SHORT = {"wishbone": "wb", "axi-lite": "axil", "axi": "axi", "shared": "sh", "crossbar": "xb"}
 FULL = dict(std=STD, bdw=[32, 64], ic=["shared", "crossbar"], cdw=[32, 8], paging=[0x400, 0x800, 0x1000],
             ordering=["big", "little"], aw=[14, 15], base=[0x0, 0xF0000000, 0x82000000], menu=S.MENU_ORDER)
+# quick: every bus platform (std x bus width x interconnect x CSR data width = 24, a full product) with three of the
+# five menus, rotating, two big-ordered and one little-ordered; paging 0x800, aw 14; the CSR base is tied to the menu
+# (both values stay in).  Every value of every quick axis occurs at least 12 times, every (menu, cdw), (menu, ordering)
+# and (std, bdw, ic, cdw) combination occurs.
 QUICK = dict(std=STD, bdw=[32, 64], ic=["shared", "crossbar"], cdw=[32, 8], paging=[0x800],
              ordering=["big", "little"], aw=[14], base=[0x0, 0x82000000], menu=S.MENU_ORDER)
+QUICK_BASE = {"sizes": 0x82000000, "atomic": 0x82000000, "memfix": 0x0, "loc0free": 0x0, "multi": 0x82000000}
 IMG_DW = [32, 64]
 IMG_END = ["little", "big"]
 
@@ -61,7 +69,19 @@ def soc_name(std, bdw, ic, cdw, paging, ordering, aw, base, menu):
 def configs(tier):
     global VERBOSE
     VERBOSE = tier != "thorough"
-    return enumerate_configs(FULL if tier == "thorough" else QUICK)
+    return enumerate_configs(FULL) if tier == "thorough" else enumerate_quick()
+
+
+def enumerate_quick():
+    out = [c for c in enumerate_configs(FULL) if c[1] == "img"]
+    menus = S.MENU_ORDER
+    platforms = itertools.product(QUICK["std"], QUICK["bdw"], QUICK["ic"], QUICK["cdw"])
+    for p, (std, bdw, ic, cdw) in enumerate(platforms):
+        for shift, ordering in ((0, "big"), (2, "little"), (4, "big")):
+            menu = menus[(p + shift) % len(menus)]
+            combo = (std, bdw, ic, cdw, 0x800, ordering, 14, QUICK_BASE[menu], menu)
+            out.append((soc_name(*combo), "soc") + combo)
+    return out
 
 
 def enumerate_configs(menu):
@@ -733,6 +753,7 @@ class Gen:
                                   ops=lambda val, mname=mname, e=e: mem_ops(mname, e, val), nw=cpw, staged=True, target=True,
                                   interloper=e == 0))
         k = 0
+        b.il_targets = sum(1 for t in items if t["nw"] >= 2 and t["target"])
         for t in items:
             if t["nw"] < 2 or not t["target"]:
                 continue
@@ -965,6 +986,7 @@ def run_soc(cfg, seed):
     tests.sort(key=lambda t: 0 if t.tid[0] in "ws" and t.tid[1] in "01:" else 1)
     fb = S.FastBench(b)
     failed_regs = set()
+    order_failed = set()
     cand = []            # (kind, msg, detail, test)
     executed = []
     sample_box = [None]
@@ -974,7 +996,9 @@ def run_soc(cfg, seed):
     cover = dict(tests=0, regs=0, multiword=0, atomic=0, fields=0, csrmems=0, busmems=0, irqs=0, status_driven=0, interleaved=0)
     dead = False
     for t in tests:
-        if any(rq in failed_regs for rq in t.requires):
+        # interrupted-write tests of a little-ordered SoC compose LSW-first themselves: the known MSW-first accessor
+        # failure of a register (order_failed) does not make them meaningless, any other failure does
+        if any(rq in failed_regs or (rq in order_failed and not t.tid.startswith("il:")) for rq in t.requires):
             masked += 1
             continue
         res = fb.run(t.script)
@@ -989,7 +1013,10 @@ def run_soc(cfg, seed):
             targets.add(t.target)
         cover["tests"] += 1
         if fails:
-            failed_regs.add(t.target)
+            if all(f[0] == "order" for f in fails) and t.variant != "native":
+                order_failed.add(t.target)
+            else:
+                failed_regs.add(t.target)
             for kind, msg, detail in fails:
                 cand.append((kind, msg, detail, t))
         if fb.dead:
@@ -1020,7 +1047,7 @@ def run_soc(cfg, seed):
     for k, n in want.items():
         if cover[k] < n or (k == "regs" and n < 4):
             raise MachineryError(f"{name}: vacuous run, {k}: {cover[k]} tested, {n} expected ({cover})")
-    if cover["multiword"] and not cover["interleaved"]:
+    if b.il_targets and cover["interleaved"] < b.il_targets:
         raise MachineryError(f"{name}: vacuous run, no interrupted multi-word write generated")
     if sum(1 for _, items, *_ in M["periphs"] for it in items if it[0] in ("stf", "rof")) and not cover["fields"]:
         raise MachineryError(f"{name}: vacuous run, no field test generated")
